@@ -161,6 +161,18 @@ def one(ctx, payload, label):
     if not isinstance(m4, RTCMMessage) or m4.payload != payload:
         ctx.violation("repr-roundtrip-differs", f"{label}: eval(repr(m)).payload differs", params)
         return
+    if zlib.crc32(payload) % 4 == 1:
+        # the same for a message built with the other label option
+        try:
+            mo = RTCMMessage(payload=streams.as_rep(rep, payload), labelmsm=2)
+            m5 = eval(repr(mo), {"RTCMMessage": RTCMMessage, "__builtins__": {"bytearray": bytearray}})  # noqa: S307
+        except Exception as e:
+            ctx.violation("repr-not-evaluable", f"{label} (labelmsm=2): {type(e).__name__}: {e}", params)
+            return
+        if not isinstance(m5, RTCMMessage) or m5.payload != payload:
+            ctx.violation("repr-roundtrip-differs", f"{label} (labelmsm=2): eval(repr(m)).payload differs", params)
+            return
+        ctx.hit("repr_checked_labelmsm2")
     if monitors.RECORDED:
         kind, desc = monitors.RECORDED[0]
         del monitors.RECORDED[:]
